@@ -112,15 +112,16 @@ Definition table_of_expr (e : expr) : table :=
   tabulate (literals e) (fun rho => evaluate e rho).
 
 Definition cell_expr (x : name) (b : bool) : expr := if b then Lit x else Not (Lit x).
+Definition stub_value (t : table) : option bool :=
+  if Nat.eqb (t_nvars t) 0 then hd_error (t_outputs t) else None.
+Definition expr_body (t : table) : expr :=
+  let rows := filter (fun po : list bool * bool => snd po) (combine (points (t_nvars t)) (t_outputs t)) in
+  if Nat.eqb (length rows) 0 then Const false
+  else if Nat.eqb (length rows) (length (t_outputs t)) then Const true
+  else Or (map (fun po => And (zip_with cell_expr (t_inputs t) (fst po))) rows).
+(* to_expression_trivial *)
 Definition expr_of_table (t : table) : expr :=
-  match t_inputs t, t_outputs t with
-  | [], o :: _ => Const o
-  | _, _ =>
-      let rows := filter (fun po => snd po) (combine (points (t_nvars t)) (t_outputs t)) in
-      if Nat.eqb (length rows) 0 then Const false
-      else if Nat.eqb (length rows) (length (t_outputs t)) then Const true
-      else Or (map (fun po => And (zip_with cell_expr (t_inputs t) (fst po))) rows)
-  end.
+  match stub_value t with Some o => Const o | None => expr_body t end.
 
 (* iterators *)
 Definition t_domain (t : table) : list (list bool) := points (length (t_literals t)).
